@@ -5,6 +5,7 @@ package main
 // parameters bound at their call sites (constants, opts.JSON, the caller's own binding).
 
 import (
+	"go/types"
 	"fmt"
 	"go/token"
 	"os"
@@ -377,6 +378,12 @@ func (c *Ctx) definitelyFails(fn *ssa.Function, r *ssa.Return) bool {
 				if g, ok := u.X.(*ssa.Global); ok && isSentinelErrorVar(g) {
 					continue
 				}
+				if _, isStruct := u.Type().Underlying().(*types.Struct); isStruct && isErrorImpl(u.Type()) {
+					continue // a typed error value (validationError{...})
+				}
+			}
+			if al, ok := sv.(*ssa.Alloc); ok && isErrorImpl(al.Type()) {
+				continue // the address of a typed error literal (&usageError{...})
 			}
 			return false
 		}
@@ -478,4 +485,15 @@ func ruleOU1(c *Ctx) {
 			"a success return is reachable under --json without any JSON value written to stdout")
 	}
 	c.ok("<module>", "activations", "-", fmt.Sprintf("%d command roots, %d (function, binding) activations analysed under JSON=true", len(roots), len(o.memo)))
+}
+
+// isErrorImpl: the type has an Error() string method (it is used as an error).
+func isErrorImpl(t types.Type) bool {
+	ms := types.NewMethodSet(t)
+	for i := 0; i < ms.Len(); i++ {
+		if ms.At(i).Obj().Name() == "Error" {
+			return true
+		}
+	}
+	return false
 }
